@@ -35,14 +35,14 @@ def stepLine (d : D) (t : Toks) : D × String :=
   | ["release", p, a] =>
     match p.toNat?, a.toNat? with
     | some p, some a =>
-      let (s', evs) := release d.s p a
+      let (s', evs) := release pickMin d.s p a
       let d' := see { d with s := s' } p
       (d', render d' evs)
     | _, _ => (d, "bad-op")
   | ["releasepeer", p] =>
     match p.toNat? with
     | some p =>
-      let (s', evs) := releasePeer d.s p
+      let (s', evs) := releasePeer pickMin d.s p
       let d' := see { d with s := s' } p
       (d', render d' evs)
     | none => (d, "bad-op")
